@@ -437,7 +437,7 @@ def h_decision(X, profile, small):
         strategy = X.choose("connection_strategy", ["lazy", "eager"])
         ignore, allow = _choose_rules(X)
         if mode == "reverse":
-            scheme = X.choose("reverse_scheme", ["http", "https"] if small else ["http", "https", "tcp", "tls"])
+            scheme = X.choose("reverse_scheme", ["http", "https"] if small else ["http", "https", "tcp"])
         kind, arg = X.choose("flight", [("http", None), ("http", ("example.com", None)), ("http", ("secret.test", 8443)),
                                         ("tls", "example.com"), ("tls", "secret.test"), ("tls", None), ("raw", None)])
         variant = kind
@@ -599,10 +599,10 @@ def obligations(tier):
         Symx("decision-syntax", lambda X: h_decision(X, "syntax", q), bounds="transparent mode, ignore_hosts / allow_hosts in {example\\.com, secret\\.test:8443$} x HTTP first flight {Host absent / "
              + ("2 cases x 3 OWS-before x 2 OWS-after" if q else "4 cases x 5 OWS-before x 3 OWS-after") + " x 2 hosts x port present/absent} x Host first/second x every cut point of the flight (two segments)",
              encoded=ENCODED, must_reach=["expect-ignored", "expect-intercept", "deferred", "decided-whole", "decided-after-deferral", "decided-on-prefix"], parallel_depth=4),
-        Symx("decision-config", lambda X: h_decision(X, "config", q), bounds=("4 modes (reverse: http/https) x 3 destinations" if q else "4 modes (reverse: http/https/tcp/tls) x 4 destinations")
+        Symx("decision-config", lambda X: h_decision(X, "config", q), bounds=("4 modes (reverse: http/https) x 3 destinations" if q else "4 modes (reverse: http/https/tcp) x 4 destinations")
              + " x lazy/eager x ignore_hosts,allow_hosts in {unset, 3 patterns}^2 x 7 first flights (HTTP without Host / 2 Host values, ClientHello with 2 SNIs / none, raw) x "
              + ("a menu of structural cut points" if q else "every cut point"), encoded=ENCODED,
              must_reach=["expect-ignored", "expect-intercept", "deferred", "decided-whole", "decided-after-deferral", "decided-on-prefix", "peer-known"], parallel_depth=4),
-        Symx("relay", lambda X: h_relay(X, 3 if q else 4, 2 if q else 4), bounds=f"ignored by ignore_hosts / allow_hosts / tls_clienthello hook x 4 modes x lazy/eager x flight {{http, tls, raw}} x 6 cut points x <= {3 if q else 4} markers "
+        Symx("relay", lambda X: h_relay(X, 3, 2 if q else 4), bounds=f"ignored by ignore_hosts / allow_hosts / tls_clienthello hook x 4 modes x lazy/eager x flight {{http, tls, raw}} x 6 cut points x <= 3 markers "
              f"({'2 payloads: HTTP-looking, 1040 bytes' if q else '4 payloads: HTTP-looking, 1040 bytes, 1 byte, TLS-looking'}) in either direction", encoded=ENCODED, must_reach=["ignored", "marker-c2s", "marker-s2c"], parallel_depth=4),
     ]
